@@ -239,7 +239,10 @@ pub fn alloc_swh<'gc, const HS: usize, HA: Copy + Default + 'static, const ES: u
 
 /// Custom per-value metadata in front of the header: a byte slice whose length travels together
 /// with padding `X` of a chosen size and alignment.
-pub struct PadMeta<X>(std::marker::PhantomData<X>);
+/// `R` > 0: the allocation layout is rounded up to a multiple of `R` and aligned to `R`, i.e. *more*
+/// than the bare value needs (`AllocMeta::layout` only has to be sufficient); release must hand back
+/// exactly that layout, not the value's.
+pub struct PadMeta<X, const R: usize = 0>(std::marker::PhantomData<X>);
 
 #[derive(Copy, Clone)]
 #[repr(C)]
@@ -249,7 +252,7 @@ pub struct LenAnd<X: Copy> {
     pub check: u32,
 }
 
-impl<X: Copy + Send + 'static, M> PtrMeta<[u8], M> for PadMeta<X> {
+impl<X: Copy + Send + 'static, M, const R: usize> PtrMeta<[u8], M> for PadMeta<X, R> {
     type PtrMetadata = LenAnd<X>;
     type Thin = ();
     fn to_thin(_tm: &'static M, fat: *const [u8]) -> *const () {
@@ -262,24 +265,24 @@ impl<X: Copy + Send + 'static, M> PtrMeta<[u8], M> for PadMeta<X> {
         std::ptr::slice_from_raw_parts(thin as *const u8, len)
     }
 }
-impl<X: Copy + Send + 'static, M> AllocMeta<[u8], M> for PadMeta<X> {
+impl<X: Copy + Send + 'static, M, const R: usize> AllocMeta<[u8], M> for PadMeta<X, R> {
     fn layout(_tm: &'static M, m: LenAnd<X>) -> Option<Layout> {
-        Layout::array::<u8>(m.len).ok()
+        if R == 0 { Layout::array::<u8>(m.len).ok() } else { Layout::from_size_align(m.len.checked_next_multiple_of(R)?.max(R), R).ok() }
     }
 }
 
-pub fn alloc_custom<'gc, X: Copy + Send + Default + 'static>(mc: &'gc Mutation<'gc>, len: usize, seed: u64, errs: &mut Vec<String>) -> Option<(Gc<'gc, ()>, Alloced)> {
-    let name = format!("[u8; {len}] with {}-byte metadata aligned {}", std::mem::size_of::<LenAnd<X>>(), std::mem::align_of::<LenAnd<X>>());
+pub fn alloc_custom<'gc, X: Copy + Send + Default + 'static, const R: usize>(mc: &'gc Mutation<'gc>, len: usize, seed: u64, errs: &mut Vec<String>) -> Option<(Gc<'gc, ()>, Alloced)> {
+    let name = format!("[u8; {len}] with {}-byte metadata aligned {}, block rounded to {R}", std::mem::size_of::<LenAnd<X>>(), std::mem::align_of::<LenAnd<X>>());
     let meta = LenAnd { x: X::default(), len, check: 0xC0FF_EE00 ^ len as u32 };
     obs::capture_on();
-    let g: Gc<'gc, [u8], GcKind<Fat, (), PadMeta<X>>> = unsafe {
-        let b = GcBuilder::<[u8], (), PadMeta<X>>::new_with_type_and_ptr_meta::<UnitTypeMeta>(meta);
+    let g: Gc<'gc, [u8], GcKind<Fat, (), PadMeta<X, R>>> = unsafe {
+        let b = GcBuilder::<[u8], (), PadMeta<X, R>>::new_with_type_and_ptr_meta::<UnitTypeMeta>(meta);
         // the builder survives a trip through its raw pointer
         let raw = b.into_raw();
         if raw.len() != len {
             errs.push(format!("{name}: GcBuilder::into_raw gives length {}", raw.len()));
         }
-        let mut b = GcBuilder::<[u8], (), PadMeta<X>>::from_raw(raw);
+        let mut b = GcBuilder::<[u8], (), PadMeta<X, R>>::from_raw(raw);
         let p = b.as_ptr() as *mut u8;
         if p != raw as *mut u8 {
             errs.push(format!("{name}: GcBuilder::from_raw(into_raw) moved the allocation"));
@@ -298,7 +301,7 @@ pub fn alloc_custom<'gc, X: Copy + Send + Default + 'static>(mc: &'gc Mutation<'
     if thin.len() != len || fat.len() != len || !Gc::ptr_eq(fat, g) {
         errs.push(format!("{name}: thin/fat round trip gives length {} / {}", thin.len(), fat.len()));
     }
-    let rt = unsafe { Gc::as_fat(Gc::<[u8], GcKind<gc_arena::gc::Thin, (), PadMeta<X>>>::from_thin_ptr_with_kind(Gc::as_thin_ptr(thin))) };
+    let rt = unsafe { Gc::as_fat(Gc::<[u8], GcKind<gc_arena::gc::Thin, (), PadMeta<X, R>>>::from_thin_ptr_with_kind(Gc::as_thin_ptr(thin))) };
     if rt.len() != len || !Gc::ptr_eq(rt, g) {
         errs.push(format!("{name}: raw thin pointer round trip gives length {}", rt.len()));
     }
